@@ -53,18 +53,18 @@ Record wf_msg (m : msg4) : Prop := {
   w_codes : Forall (fun kv => code_ok (fst kv)) (m_opts m);
   w_nodup : NoDup (map fst (m_opts m)) }.
 
-Theorem msg4_roundtrip m b : wf_msg m -> enc_msg m = Ok b -> dec_msg b = Some (wire_msg m).
+Theorem msg4_roundtrip_pad m body pad : wf_msg m -> enc_body m = Ok body -> dec_msg (body ++ pad) = Some (wire_msg m).
 Proof.
-  intros W. unfold enc_msg.
+  intros W. unfold enc_body.
   destruct (enc_ip4 (m_ciaddr m)) as [ci|e|] eqn:Eci; try discriminate.
   destruct (enc_ip4 (m_yiaddr m)) as [yi|e|] eqn:Eyi; try discriminate.
   destruct (enc_ip4 (m_siaddr m)) as [si|e|] eqn:Esi; try discriminate.
   destruct (enc_ip4 (m_giaddr m)) as [gi|e|] eqn:Egi; try discriminate.
-  cbn [bind]. cbv zeta. intros H. assert (Hb : b = pad_min ([m_op m mod 256; m_htype m mod 256; N.of_nat (length (m_chaddr m)) mod 256; m_hops m mod 256]%N ++
+  cbn [bind]. intros H. assert (Hb : body = [m_op m mod 256; m_htype m mod 256; N.of_nat (length (m_chaddr m)) mod 256; m_hops m mod 256]%N ++
                 be_bytes 4 (m_xid m) ++ be_bytes 2 (m_secs m) ++ be_bytes 2 (m_flags m) ++
                 ci ++ yi ++ si ++ gi ++ pad_to 16 (m_chaddr m) ++
                 pad_to 64 (firstn 63 (m_sname m)) ++ pad_to 128 (firstn 127 (m_file m)) ++
-                cookie ++ enc_opts (m_opts m) ++ [255%N])) by congruence. clear H. subst b. unfold pad_min.
+                cookie ++ enc_opts (m_opts m) ++ [255%N]) by congruence. clear H. rename body into body0.
   pose proof (enc_ip4_len _ _ Eci) as Lci. pose proof (enc_ip4_len _ _ Eyi) as Lyi.
   pose proof (enc_ip4_len _ _ Esi) as Lsi. pose proof (enc_ip4_len _ _ Egi) as Lgi.
   destruct W as [Wop Wht Whops Wxid Wsecs Wflags Wch [Wsn1 Wsn2] [Wf1 Wf2] Wcodes Wnd].
@@ -80,7 +80,7 @@ Proof.
   assert (Lfl : length fl = 128) by apply pad_to_length.
   (* the datagram as header ++ options ++ padding *)
   set (body := hd ++ x4 ++ s2 ++ f2 ++ ci ++ yi ++ si ++ gi ++ ch ++ sn ++ fl ++ cookie ++ enc_opts (m_opts m) ++ [255%N]).
-  set (pad := repeat 0%N (300 - length body)).
+  assert (Hb' : body0 = body) by exact Hb. clear Hb. subst body0.
   assert (Ebody : body ++ pad = hd ++ x4 ++ s2 ++ f2 ++ ci ++ yi ++ si ++ gi ++ ch ++ sn ++ fl ++ cookie ++ (enc_opts (m_opts m) ++ 255%N :: pad)).
   { unfold body. rewrite <- !app_assoc. cbn [app]. reflexivity. }
   rewrite Ebody. clear Ebody. set (rest := enc_opts (m_opts m) ++ 255%N :: pad).
@@ -142,3 +142,13 @@ Proof.
   - unfold fl, pad_to. rewrite (firstn_all2 (m_file m)) by lia. rewrite (firstn_all2 (m_file m)) by lia.
     apply until_nul_pad; [exact Wf2|lia].
 Qed.
+
+Theorem msg4_roundtrip m b : wf_msg m -> enc_msg m = Ok b -> dec_msg b = Some (wire_msg m).
+Proof.
+  intros W. unfold enc_msg. destruct (enc_body m) as [body|e|] eqn:E; cbn [bind]; try discriminate.
+  intros H. injection H as <-. unfold pad_min. exact (msg4_roundtrip_pad m body _ W E).
+Qed.
+
+(* the unpadded form parses to the same message *)
+Corollary msg4_roundtrip_body m body : wf_msg m -> enc_body m = Ok body -> dec_msg body = Some (wire_msg m).
+Proof. intros W E. rewrite <- (app_nil_r body). exact (msg4_roundtrip_pad m body [] W E). Qed.
